@@ -256,7 +256,32 @@ def r4_panic_census(ctx):
     ctx.check(R, "table-regions-known", not bad_region, "table lines with an unknown region: %s" % bad_region, None, nontrivial=False)
 
 
-RULES = [("C18.R1", r1_accept_tolerates_errors), ("C18.R2", r2_isolation), ("C18.R3", r3_errors_become_responses), ("C18.R4", r4_panic_census)]
+
+def r5_no_client_sized_allocation(ctx):
+    """Added after adversary change C18-B (`BytesMut::with_capacity(body.size_hint().lower())`: a declared Content-Length of
+    2^62 aborts the process in the allocator before a single body byte is read)."""
+    R = ctx.rule("C18.R5", "on the request path no buffer is pre-sized from a length the client merely declares (Body::size_hint / SizeHint / Content-Length): "
+                 "capacity arguments are constants, server-side values or lengths of data already received", floor=1)
+    roots = [f.id for f in ctx.ds.F.values() if re.search(r"^server::http_request_handle_wrap$|as extractor::common::(Exclusive|Shared)Extractor>::from_request$|^extractor::body::|^http_util::", f.id)]
+    reg = ctx.ds.region(roots)
+    n = 0
+    for fid in sorted(reg):
+        f = ctx.ds.F[fid]
+        for bb, t in f.live_calls(r"::(with_capacity|with_capacity_in|reserve|reserve_exact|try_reserve|try_reserve_exact|resize|resize_with|from_elem|set_len)$"):
+            if not t["args"]:
+                continue
+            n += 1
+            size = t["args"][-1] if not t["callee"].endswith(("resize", "resize_with")) else t["args"][1]
+            sl = f.slice(size)
+            declared = [c for c in sl.callee_names() if re.search(r"size_hint|SizeHint|content_length", c)] + \
+                [a[1] for a in sl.atoms if a[0] == "const" and "CONTENT_LENGTH" in a[1]]
+            bounded = sl.has_call(r"cmp::(Ord::)?min$|::clamp$") and not False
+            ctx.check(R, "capacity:%s:%s" % (fid.split("::{closure")[0], t["callee"].split("::")[-1]), not declared or bounded,
+                      "capacity argument derives from %s%s" % (declared or "no client-declared length", " (bounded by min/clamp)" if declared and bounded else ""), (f, bb))
+    ctx.check(R, "capacity-sites-examined", n >= 1, "capacity-taking calls examined in the request region (%d functions): %d" % (len(reg), n), nontrivial=False)
+
+
+RULES = [("C18.R5", r5_no_client_sized_allocation), ("C18.R1", r1_accept_tolerates_errors), ("C18.R2", r2_isolation), ("C18.R3", r3_errors_become_responses), ("C18.R4", r4_panic_census)]
 
 _S = "dropshot/src/server.rs"
 _I32 = " " * 32
@@ -304,3 +329,5 @@ SELFTEST = [
     {"name": "sleep-tuned", "kind": "benign", "why": "property-preserving: back-off after a resource-exhaustion accept error changed from 100 ms to 50 ms",
      "edits": [(_S, "                        tokio::time::sleep(std::time::Duration::from_millis(\n                            100,\n                        ))", "                        tokio::time::sleep(std::time::Duration::from_millis(\n                            50,\n                        ))")]},
 ]
+
+LEVEL_TEXT += ' Also (R5): on the request path no buffer is pre-sized from a length the client merely declares (size_hint / Content-Length).'
